@@ -1,6 +1,7 @@
 """Generic contract helpers for Lie-group functions with a small-angle switch:
 closed-form paths get exact obligations (nf), Taylor paths get series-bound obligations (jet)."""
 import itertools
+import math
 import time
 from fractions import Fraction
 
@@ -153,6 +154,32 @@ def series_pairs(res, oid, pairs, G, tol, minprec=6, group_input=False, order=18
                     e.setdefault(n.args[0], rng.uniform(-1, 1))
                 return e
             wit = engine.numeric_witness(pairs, _samp, tries=600, seed=1, rtol=float(tol) * 10 if tol else 1e-6, pathcond=lambda env: engine.path_holds(pv, env))
+        if wit is None and not expect_fail and pv is not None:
+            # directed search: local search for inputs that satisfy the path condition (e.g. a guard around a particular angle)
+            import random as _rnd2
+
+            def _start(rng):
+                e = G.sample_group(rng, prefix) if group_input else G.sample_tangent(rng, prefix, rotnorm=rng.choice([0.5, 2.0, 3.0, 3.14, 4.0, 6.0]))
+                for n in dag.leaves([x for _, l, r in pairs for x in (l, r)]):
+                    e.setdefault(n.args[0], rng.uniform(-1, 1))
+                return e
+
+            def _norm(e):
+                if group_input:
+                    for grp in G.unit:
+                        nn = sum(e["%s%d" % (prefix, k)] ** 2 for k in grp) ** 0.5
+                        if nn > 0:
+                            for k in grp:
+                                e["%s%d" % (prefix, k)] /= nn
+            found = []
+            for sd in range(6):
+                env_ = engine.path_search(pv, _start, _norm, seed=sd)
+                if env_ is not None:
+                    found.append(env_)
+            if found:
+                it_ = iter(found)
+                wit = engine.numeric_witness(pairs, lambda rng: next(it_), tries=len(found), seed=1, rtol=float(tol) * 10 if tol else 1e-6,
+                                             pathcond=lambda env: engine.path_holds(pv, env))
         for entry, l, r in pairs:
             if wit is not None:
                 from .common import write_replay, native_replay, fmt_env
@@ -230,6 +257,68 @@ def series_pairs(res, oid, pairs, G, tol, minprec=6, group_input=False, order=18
                     extra=dict(replay=write_replay("%s/%s" % (oid, entry), payload), confirmed=bool(w and w.get("confirmed"))))
     if expect_fail:
         res.add(oid, "canary-refuted" if canary_seen else "canary-not-refuted", "jet", 0.0)
+
+
+def _rot_blocks(G, off=0):
+    """index blocks of rotation coordinates (one block per rotating part)"""
+    if hasattr(G, "parts"):
+        out = []
+        for p_, do in zip(G.parts, G.dof_off):
+            out += _rot_blocks(p_, off + do)
+        return out
+    return [tuple(off + i for i in G.rot)] if G.rot else []
+
+
+def zero_rotation_clause(res, oid, outs, G, call, pv, prefix="a", seed=0, ctol=1e-7):
+    """The point t = 0 that the series clause (0 < t <= tmax) leaves out: on inputs of this path whose rotation coordinates are EXACTLY
+    zero (all blocks, and each block alone) every output is finite and agrees with the output at a rotation of norm 1e-11 on the same
+    path (continuity; a 0/0 at the origin shows up as NaN).  Concrete IEEE evaluation of the path's expressions; violations are
+    replayed natively."""
+    import random as _r
+    rng = _r.Random(seed + 77)
+    blocks = _rot_blocks(G)
+    if not blocks:
+        return
+    cands = [tuple(blocks)] + ([(b,) for b in blocks] if len(blocks) > 1 else [])
+    tested = 0
+    bad = None
+    for zero_blocks in cands:
+        for _ in range(6):
+            e0 = G.sample_tangent(rng, prefix, rotnorm=rng.choice([1e-11, 0.7]), tscale=rng.choice([1.0, 10.0]))
+            e1 = dict(e0)
+            for b in zero_blocks:
+                u = [rng.gauss(0, 1) for _ in b]
+                n = math.sqrt(sum(x * x for x in u)) or 1.0
+                for i, x in zip(b, u):
+                    e0["%s%d" % (prefix, i)] = 0.0
+                    e1["%s%d" % (prefix, i)] = 1e-11 * x / n
+            for n_ in dag.leaves(list(outs)):
+                e0.setdefault(n_.args[0], 0.37)
+                e1.setdefault(n_.args[0], 0.37)
+            if not (engine.path_holds(pv, e0) and engine.path_holds(pv, e1)):
+                continue
+            tested += 1
+            try:
+                v0, v1 = dag.eval_ieee(list(outs), e0), dag.eval_ieee(list(outs), e1)
+            except Exception:
+                continue
+            sc = max([1.0] + [abs(v1[o.id]) for o in outs if math.isfinite(v1[o.id])])
+            for k_, o in enumerate(outs):
+                a, b_ = v0[o.id], v1[o.id]
+                if not math.isfinite(b_):
+                    continue
+                if not math.isfinite(a) or abs(a - b_) > ctol * sc:
+                    bad = bad or dict(entry=k_, env=e0, at_zero=repr(a), nearby=b_)
+    if not tested:
+        return
+    if bad is None:
+        res.add(oid, "proved", "ground", 0.0, "finite and continuous at exactly zero rotation (%d inputs of this path)" % tested)
+    else:
+        payload = dict(obligation=oid, property=res.prop, backend="ground", reason="output %d at exactly zero rotation is %s, at a rotation of norm 1e-11 it is %r"
+                       % (bad["entry"], bad["at_zero"], bad["nearby"]), witness=dict(env=fmt_env(bad["env"])))
+        if call is not None:
+            payload["native"] = native_replay(call, bad["env"], pv)
+        res.add(oid, "refuted", "ground", 0.0, payload["reason"], witness=dict(env=fmt_env(bad["env"])), extra=dict(replay=write_replay(oid, payload), confirmed=True))
 
 
 def tmax_of(pv, G=None, prefix="a", group_input=False):
